@@ -21,7 +21,10 @@ variable {K : Type} [Field K] [LinearOrder K] [IsStrictOrderedRing K]
     computed with the same projector on the same viewgrams (i.e. not for TOF data with a non-TOF sensitivity projector).
     A `Bin` carries its own chain of factors, so this covers normalisation factors that differ from TOF bin to TOF bin
     (`BinNormalisationFromProjData` on TOF data, cxx:134/:145) — the configurations in which the library itself switches to
-    the same projector, `C05_tof_norm_uses_same_projector` below; the harness runs them since the extension of C05 -/
+    the same projector, `C05_tof_norm_uses_same_projector` below; the harness runs them since the extension of C05.
+    Since the setter extension the harness evaluates this identity also on objects whose setters were called AFTER `set_up` without a
+    new `set_up` (whatever such an object still answers: gradient-plus-sensitivity minus gradient against `get_subset_sensitivity`),
+    which is where a flag that is not reset shows — `C05_answered_after_setters_is_fresh` below -/
 theorem C05_grad_eq_gradPlusSens_sub_sens (c : Consts K) (zero : Bool) (img : Nat → K) (S : List (Viewgram K)) (v : Nat) :
     grad c zero img S v = gradPlusSens c zero img S v - sens zero S v :=
   grad_eq_gradPlusSens_sub_sens c zero img S v
@@ -526,6 +529,117 @@ example :
     (r2.2.1.getSub 0, r2.2.1.getSub 1, r2.2.1.getTot) = (some (21 / 2), some (21 / 2), some 21) ∧
     (r3.1, r3.2.1.getSub 0, r3.2.1.getSub 1, r3.2.1.getTot) = (true, some 10, some 20, some 30) ∧
     (r4.1, r4.2.1.getSub 0, r4.2.1.getSub 1, r4.2.1.getTot) = (true, some 10, some 20, some 30) := by
+  decide +kernel
+
+/-! ## histories: public setters called after `set_up` WITHOUT a new `set_up`
+"… for any … maximum segment or TOF range and subset scheme, the value, (subset) gradient, (subset) sensitivity and
+Hessian-times-vector returned … equal the expressions derived from L …", "the 'gradient plus sensitivity' quantity exceeds the
+gradient by exactly the sensitivity", quantified over *histories*: the configuration an answer must be the textbook expression of is
+the one the object has been given through its setters, also when they are called after `set_up`.  The model object (`Obj`: the
+members, `already_set_up`, and as ghost state the members the last successful `set_up` worked with) goes through the same setter
+calls as the real object in the harness (`sset` / `ssetup` / `sreq` lines: flag and observable members after every setter, accepted /
+refused for every request), and every answer of the real object is compared bit for bit with a FRESH object given the new values. -/
+
+/-- **an answered request is the fresh answer**: for every history of setter calls (any setter but `parse`, any arguments,
+    same value or new value) and `set_up`s (successful or refused at any of its checks, whatever balance / files / earlier
+    sensitivities it finds) applied to a newly constructed object, a request that tests `already_set_up` — value, gradient,
+    gradient plus sensitivity, Hessian product, approximate Hessian, penalised or not — is answered only if
+    * every member that enters the quantities (`Members.core`: number of subsets, the data, additive term, normalisation and projector
+      objects, segment and TOF range, `zero_seg0_end_planes`, `use_subset_sensitivities`, the file names, frame number and
+      definitions) is the member the last successful `set_up` left — so the cached subset sensitivities and the projector set-up the
+      answer uses are those of the configuration the object has now; and
+    * a new object given the members of this object and set up (whenever that `set_up` succeeds) answers the same request from
+      members with the same core, its cached state made for them: the answer is the fresh answer.
+    (Before the flag was compared with the argument — the round-3 seed clamped `num_subsets` first — `set_num_subsets(n2)` kept the
+    flag on with the sensitivities of the old subset scheme; `C05_setter_changing_a_member_resets_flag` is the step that excludes it.) -/
+theorem C05_answered_after_setters_is_fresh (d : Data) (h : List Event) (hp : ∀ e ∈ h, Event.noParse e = true)
+    (r : Req) (pen : Bool) (b : Basis) (ha : (Obj.new.run d h).answer (.guarded r pen) = some b) :
+    b.live = (Obj.new.run d h).m ∧
+    (∃ s, b.cachedFor = some s ∧ b.live.core = s.core) ∧
+    ∀ w : Call, (({ Obj.new with m := b.live, priorReady := (Obj.new.run d h).priorReady } : Obj).setUp d w).1 = true →
+      ∃ bf, (({ Obj.new with m := b.live, priorReady := (Obj.new.run d h).priorReady } : Obj).setUp d w).2.answer (.guarded r pen)
+          = some bf ∧ bf.live.core = b.live.core ∧ bf.cachedFor = some bf.live := by
+  obtain ⟨hal, hb⟩ := answer_guarded _ r pen b ha
+  obtain ⟨s, h1, h2, _, h4, h5⟩ := inv_run d h hp Obj.new (inv_new d) hal
+  subst hb
+  refine ⟨rfl, ⟨s, h1, h2⟩, ?_⟩
+  intro w hok
+  exact fresh_answers d w _ _ ⟨h4, h5⟩ r pen hok
+
+/-- **the setter table is safe**: a setter call (other than `parse`) that changes a member entering the quantities switches
+    `already_set_up` off — whatever the state of the object (number of subsets positive, as the setter and the constructor guarantee),
+    so every request that tests the flag is refused until the next successful `set_up` -/
+theorem C05_setter_changing_a_member_resets_flag (o : Obj) (s : Setter) (hs : Event.noParse (.set s) = true)
+    (hn : 0 < o.m.numSubsets) (hc : (o.set s).m.core ≠ o.m.core) (r : Req) (pen : Bool) :
+    (o.set s).already = false ∧ (o.set s).answer (.guarded r pen) = none := by
+  have h := set_core_changed o s hs hn hc
+  exact ⟨h, by simp [Obj.answer, h]⟩
+
+/-- a setter called with the value the member already has leaves the flag and the members alone (the value setters; the pointer
+    and file-name setters reset the flag whatever the argument) -/
+theorem C05_setter_same_value_keeps_flag (o : Obj) :
+    o.set (.numSubsets o.m.numSubsets) = { o with m := { o.m with numSubsets := clampSubsets o.m.numSubsets } } ∧
+    (o.set (.zeroEndPlanes o.m.zeroEnd)) = o ∧ (o.set (.useSubsetSens o.m.useSubsetSens)) = o ∧
+    (o.set (.frameNum o.m.frameNum)) = o ∧ (o.set (.frameDefs o.m.frameDefs)) = o ∧
+    (o.set (.maxSegment o.m.maxSeg)).already = o.already ∧ (o.set (.maxTof o.m.maxTof)).already = o.already ∧
+    (o.set (.projData o.m.projData)).already = false ∧ (o.set (.sensFilename o.m.totName)).already = false := by
+  obtain ⟨m, al, snap, pr, sr⟩ := o
+  simp [Obj.set]
+
+/-- the objects of the examples: data `7` with segments `-2 … 2` and TOF bins `-1 … 1`, one time frame -/
+def exData : Data := { segMax := fun _ => 2, tofMax := fun _ => 1, numFrames := fun _ => 1 }
+def exCall : Call := { balanced := fun _ => true, sub0Null := true, filesOK := false }
+def exConfigure : List Event :=
+  [.set (.projData 7), .set (.projectorPair 3), .set (.normalisation 2), .set (.zeroEndPlanes true), .set (.numSubsets 2), .setUp exCall]
+
+/-- non-vacuity: after configuring and `set_up`, setters called with the SAME values (the range that `set_up` derived from `-1`
+    included), `set_recompute_sensitivity(false)` and a prior that is set up leave the requests answered — from members whose core is
+    that of the last `set_up`; then `set_zero_seg0_end_planes(false)` (a new value) refuses everything, also after setting the old
+    value back, until the next `set_up` (which, with `recompute_sensitivity` off, sensitivities in the object and no file names, is
+    refused: Mean.cxx:209/:242 "filename is empty"; after `set_recompute_sensitivity(true)` it succeeds); a prior that is not set up
+    refuses the penalised requests only -/
+example :
+    let o1 := Obj.new.run exData (exConfigure ++ [.set (.zeroEndPlanes true), .set (.maxSegment 2), .set (.numSubsets 2),
+      .set (.recomputeSens false), .set (.prior 5 true)])
+    let o2 := o1.run exData [.set (.zeroEndPlanes false)]
+    let o3 := o2.run exData [.set (.zeroEndPlanes true)]
+    let o4 := o3.run exData [.set (.recomputeSens true), .setUp { exCall with sub0Null := false }]
+    let o5 := o1.run exData [.set (.prior 6 false)]
+    (o1.already, (o1.answer (.guarded .value true)).map (fun b => b.live.maxSeg), o1.snap.map (·.core) == some o1.m.core) = (true, some 2, true) ∧
+    (o2.already, o2.answer (.guarded (.gradient false) false)) = (false, none) ∧
+    (o3.already, o3.answer (.guarded .hessian false)) = (false, none) ∧
+    (o4.already, (o4.answer (.guarded .value true)).isSome, (o3.setUp exData { exCall with sub0Null := false }).1) = (true, true, false) ∧
+    ((o5.answer (.guarded .value true)).isSome, (o5.answer (.guarded .value false)).isSome, (o5.answer (.guarded (.gradient true) true)).isSome)
+      = (false, true, true) := by
+  decide +kernel
+
+/-- **regression witness (`parse` after `set_up`, fix C05-3)**: `parse` of a parameter text with "zero end planes of segment 0 := 0"
+    on an object that was set up with the flag on used to leave `already_set_up` on (the reset at the end of `post_processing` was
+    commented out): the gradient was then answered for the new flag while the cached subset sensitivities were those of the old one.
+    Since the fix `parse` resets the flag like the setters and every guarded request is refused until the next `set_up`
+    (harness: `parse` histories; the class `parse-after-set_up:…` no longer occurs) -/
+theorem C05_parse_after_set_up_keeps_flag_fails :
+    let o := Obj.new.run exData (exConfigure ++ [.set (.parseKeys false 2)])
+    o.already = false ∧ o.answer (.guarded (.gradient false) false) = none ∧ o.m.zeroEnd = false := by
+  decide +kernel
+
+/-- **observation outside the property's quantifier (requests that do not test the flag)** — not a finding: C05 speaks about requests
+    AFTER set-up, and no clause is contradicted by two ANSWERED quantities here, since every guarded request is refused in these
+    states.  Recorded because the model transcribes it and the harness compares the answered / refused pattern (`sreq` lines):
+    `get_subset_sensitivity` / `get_sensitivity` hand out the images cached by the last `set_up` and `add_subset_sensitivity` / the public
+    `actual_compute_subset_gradient_without_penalty` compute from the members as they are, whatever `already_set_up` says.  After
+    `set_up` with 2 subsets and `set_num_subsets(3)` the object claims 3 subsets, every guarded request is refused, and
+    `get_subset_sensitivity` still answers with the state of the last `set_up` (the 2-subset scheme); after
+    `set_max_segment_num_to_process(-1)` ("all segments": a new object's `set_up` makes 2 of it) `add_subset_sensitivity` runs its loop
+    over the segments `1 … -1`, i.e. over nothing.  (Harness: such answers are counted as `unguarded_answered_stale`, no oracle
+    verdict; the oracle "gradient plus sensitivity minus gradient = sensitivity handed out" stays strict on whatever IS answered.) -/
+theorem C05_unguarded_requests_answer_stale_fails :
+    let o := Obj.new.run exData (exConfigure ++ [.set (.numSubsets 3)])
+    let o' := Obj.new.run exData (exConfigure ++ [.set (.maxSegment (-1))])
+    (o.answer (.guarded .value false) = none ∧
+      (o.answer .getSubsetSens).map (fun b => (b.live.numSubsets, b.cachedFor.map (·.numSubsets))) = some (3, some 2)) ∧
+    ((o'.answer .addSubsetSens).map (fun b => b.live.maxSeg) = some (-1) ∧
+      (setUpMembers exData exCall o'.m).2.maxSeg = 2) := by
   decide +kernel
 
 /-! ## the executable accumulation used by the driver is the image of the model -/
